@@ -292,6 +292,19 @@ class P11:
             raise Died(r["died"], line)
         return r
 
+    def batch(self, lines):
+        """pipelined calls; a death inside the batch raises Died (remaining answers are drained first)"""
+        rs = self.sh.batch(lines)
+        for i, r in enumerate(rs):
+            if "died" in r:
+                if hasattr(self.sh, "depth"):
+                    self.sh.depth -= 1
+                self.sh.cmd("RESUME")
+                raise Died(r["died"], lines[i])
+            if "error" in r:
+                raise RuntimeError("p11sh protocol error: %s for %s" % (r["error"], lines[i][:200]))
+        return rs
+
     def Initialize(self, args="null"): return self.call("C_Initialize args=%s" % args)
     def Finalize(self): return self.call("C_Finalize")
     def GetSlotList(self, present=1, cnt="q"): return self.call("C_GetSlotList present=%d cnt=%s" % (present, cnt))
